@@ -96,8 +96,15 @@ def api_vs_oracle(run, ir, zm, m, nper, mask, deviation):
     start = ir.qq(2020, 1)
     span = start >> (start + nper - 1)
     db = _data_db(ir, zm, start, nper, mask)
-    with kf.KalmanLift(ir, zm.mvars) as L, S.Path() as path:
-        out = m.kalman_filter(db, span, deviation=deviation)
+    try:
+        with kf.KalmanLift(ir, zm.mvars) as L, S.Path() as path:
+            out = m.kalman_filter(db, span, deviation=deviation)
+    except S.SymbolicBranchError:
+        raise
+    except Exception as exc:
+        # the public call itself fails: decided by replay (the same call on floats, no lifting)
+        run.counterexample(f"api:{base_key}", f"kalman:raises:{zm.name}", f"kalman_filter raises {type(exc).__name__}: {str(exc)[:140]}", dict(case, kind="api_raises", values={}))
+        return
     cache = L.caches[0]
     syms = dict(L.cap["syms"])
     B, xi, ynames, unames, wnames = _oracle_setup(ir, zm, m, nper, deviation)
@@ -543,6 +550,12 @@ def replay(case):
     start = ir.qq(2020, 1)
     span = start >> (start + nper - 1)
     db = _data_db(ir, zm, start, nper, mask, values=vals)
+    if case["kind"] == "api_raises":
+        try:
+            m.kalman_filter(db, span, deviation=deviation)
+        except Exception as exc:
+            return True, f"kalman_filter raises {type(exc).__name__}: {exc}"
+        return False, "kalman_filter completes on floats"
     B, xi, ynames, unames, wnames = _oracle_setup(ir, zm, m, nper, deviation)
     yrow = {n: r for r, n in enumerate(ynames)}
     obs_all = [(yrow[n], t) for r, n in enumerate(zm.mvars) for t in range(nper) if mask[(r, t)]]
